@@ -402,12 +402,10 @@ func gobDecodeItem(data []byte) (Item, error) {
 	typ := ActivityVocabularyType("")
 	mm, err := gobDecodeObjectAsMap(data)
 	if err == nil {
-		var sTyp []byte
-		sTyp, isObject = mm["type"]
-		if isObject {
+		// anything that decodes as a property map is an object, with or without type and id
+		isObject = true
+		if sTyp, hasType := mm["type"]; hasType {
 			typ = ActivityVocabularyType(sTyp)
-		} else {
-			_, isObject = mm["id"]
 		}
 	}
 	if isObject {
@@ -597,6 +595,11 @@ func unmapOrderedCollectionPageProperties(mm map[string][]byte, c *OrderedCollec
 	}
 	if raw, ok := mm["prev"]; ok {
 		if c.Prev, err = gobDecodeItem(raw); err != nil {
+			return err
+		}
+	}
+	if raw, ok := mm["startIndex"]; ok {
+		if err = gobDecodeUint(&c.StartIndex, raw); err != nil {
 			return err
 		}
 	}
